@@ -205,7 +205,8 @@ def run_cfg(ctx, p, cfg):
         for b, i, st in f.assigns():
             if st["lhs"]["l"] == 1 and any(isinstance(e, dict) and "f" in e for e in st["lhs"]["p"]):
                 moves.add(b)
-        somes = {b for b, e in q.ret_assignments(f) if not (deep_strip(e)[0] == "agg" and deep_strip(e)[2] == "None")}
+        # (`self.it.peek()?` hands the `None` on: in a function returning an Option the residual of `?` is the end of the pieces)
+        somes = {b for b, e in q.ret_assignments(f) if not (deep_strip(e)[0] == "agg" and deep_strip(e)[2] == "None") and not q.is_from_residual(e)}
         r.require(bool(moves) and bool(somes), "anchors", fn=f, detail="cursor moves in %d blocks, %d returns of a piece" % (len(moves), len(somes)))
         stuck = q.skipping_paths(f, 0, moves, somes)
         r.require(not stuck, "every-piece-consumes-input", fn=f, detail="every path to a returned piece passes a step of the parser's cursor",
